@@ -24,6 +24,14 @@ CHECK = {
             "budget_s": {"quick": 100, "thorough": 1500},
         },
         {
+            # cross-check of the state-cache abstraction against the uncached search
+            "name": "c10-cachecheck", "pkg": CC, "rewrite": [CC], "tiers": ["thorough"],
+            "harness": ["connectconformance/c10_test.go", "connectconformance/fakeproc_test.go", "connectconformance/gateutil_test.go"],
+            "test": "^TestVerifC10CacheCheck$", "gomaxprocs": 1,
+            "shards": {"quick": 16, "thorough": 16},
+            "budget_s": {"quick": 120, "thorough": 900},
+        },
+        {
             # free-running pass for the race detector: no shims, no bubble
             "name": "c10-race", "pkg": CC, "race": True, "tiers": ["thorough"],
             "harness": ["connectconformance/c10_test.go", "connectconformance/fakeproc_test.go", "connectconformance/gateutil_test.go"],
